@@ -1,12 +1,243 @@
-/-! Model for property C12 (core-only: no Mathlib import, so the driver links). -/
+import OnetVerif.Model.Util
+/-! Model for property C12: the roster's tree generators (`tree.go:549-690`).
+
+* `genNary`  — `GenerateNaryTreeWithRoot` (tree.go:639-673): the two-queue loop, transcribed
+  literally (including `SubtreeCount`, which counts *all* descendants of the current parent).
+  A tree is the list of its nodes in creation order, each `(roster index, position of the parent)`.
+* `genBinary`, `genStar` — `GenerateBinaryTree`, `GenerateStar` (tree.go:683-690).
+* `genBig`   — `GenerateBigNaryTree` (tree.go:549-613): level by level; the number of children of
+  the i-th parent of a level of `L` parents is `min N ((nodes − total)·(i+1)/L)`; every child's
+  server is chosen by the host-avoidance / use-all loop `pick` (tree.go:577-596), which has fuel
+  (`2·len+3`) — that it never runs out is a theorem.  A tree is the list of its levels, each node
+  `(roster index, index of the parent within the previous level)`.
+
+Hosts (`Address.Host()`) are numbers: two servers are on the same host iff their numbers are equal.
+Core-only. -/
 namespace C12
 
+/-- node of a tree in creation order: roster index and position of the parent (0 for the root) -/
+abbrev Nodes := List (Nat × Nat)
+
+/-- what a generator call does -/
+inductive Outcome (α : Type) where
+  | tree (t : α)
+  | noTree          -- `return nil`
+  | panic           -- index out of range
+  | hang            -- a loop that does not end
+  deriving DecidableEq, Repr
+
+/-! ### n-ary generator -/
+
+/-- positions of the proper descendants of `p`, given the parent of nodes `j, j+1, …` in creation
+order (a parent is created before its children): `TreeNode.SubtreeCount` visits exactly these -/
+def descendants (p : Nat) : (parents : List Nat) → (j : Nat) → (acc : List Nat) → List Nat
+  | [], _, acc => acc
+  | q :: rest, j, acc =>
+    if q = p ∨ q ∈ acc then descendants p rest (j + 1) (acc ++ [j]) else descendants p rest (j + 1) acc
+
+/-- `t.SubtreeCount()` (tree.go:984-990) of the node at position `p` -/
+def subtreeCount (nodes : Nodes) (p : Nat) : Nat :=
+  (descendants p ((nodes.drop 1).map (·.2)) 1 []).length
+
+/-- loop state of `GenerateNaryTreeWithRoot`: nodes created so far, the slices `parents` and
+`children` (positions) -/
+structure NarySt where
+  nodes    : Nodes
+  parents  : List Nat
+  children : List Nat
+  deriving DecidableEq, Repr
+
+/-- one iteration `i` of the loop (tree.go:653-670); `none` = index out of range on `parents[0]` -/
+def naryStep (N rootIdx n : Nat) (s : NarySt) (i : Nat) : Option NarySt :=
+  let index := (i + rootIdx) % n
+  match s.parents with
+  | [] => none
+  | p0 :: prest =>
+    -- `if parents[0].SubtreeCount() == N { parents = parents[1:] }`
+    let parents := if subtreeCount s.nodes p0 = N then prest else s.parents
+    -- `if len(parents) == 0 { parents = children; children = []*TreeNode{} }`
+    let pc := if parents.isEmpty then (s.children, []) else (parents, s.children)
+    match pc.1 with
+    | [] => none
+    | q :: _ =>
+      some { nodes := s.nodes ++ [(index, q)], parents := pc.1, children := pc.2 ++ [s.nodes.length] }
+
+def naryLoop (N rootIdx n : Nat) : List Nat → NarySt → Option NarySt
+  | [], s => some s
+  | i :: is, s =>
+    match naryStep N rootIdx n s i with
+    | none => none
+    | some s' => naryLoop N rootIdx n is s'
+
+/-- `GenerateNaryTreeWithRoot(N, root)` on a roster of `n ≥ 1` distinct servers; `root` is the
+position `ro.Search` finds (`none`: the asked-for root is not in the roster) -/
+def genNary (N : Nat) (root : Option Nat) (n : Nat) : Outcome Nodes :=
+  match root with
+  | none => .noTree
+  | some rootIdx =>
+    match naryLoop N rootIdx n (List.range' 1 (n - 1)) { nodes := [(rootIdx, 0)], parents := [0], children := [] } with
+    | none => .panic
+    | some s => .tree s.nodes
+
+/-- `GenerateNaryTree(N)`: root = first server -/
+def genNaryFirst (N n : Nat) : Outcome Nodes := genNary N (some 0) n
+/-- `GenerateBinaryTree()` -/
+def genBinary (n : Nat) : Outcome Nodes := genNaryFirst 2 n
+/-- `GenerateStar()` -/
+def genStar (n : Nat) : Outcome Nodes := genNaryFirst (n - 1) n
+
+/-- the complete `N`-ary tree in breadth-first order over the roster rotated by `rootIdx` -/
+def naryClosed (N rootIdx n : Nat) : Nodes :=
+  (List.range n).map fun i => ((i + rootIdx) % n, (i - 1) / N)
+
+/-! ### big generator -/
+
+/-- what `GenerateBigNaryTree` is called with: branching factor, number of nodes, and the host of
+every roster member -/
+structure BigCfg where
+  N     : Nat
+  nodes : Nat
+  hosts : List Nat
+  deriving DecidableEq, Repr
+
+def BigCfg.ilLen (c : BigCfg) : Nat := c.hosts.length
+/-- `useAll := ilLen == nodes` -/
+def BigCfg.useAll (c : BigCfg) : Bool := c.ilLen == c.nodes
+
+/-- `used`, `roIndex`, `totalNodes` -/
+structure BigSt where
+  used    : List Bool
+  roIndex : Nat
+  total   : Nat
+  deriving DecidableEq, Repr
+
+/-- the inner `for` (tree.go:577-596): skip servers on the parent's host and, in use-all mode,
+servers already used.  `none` = out of fuel. -/
+def pickLoop (c : BigCfg) (used : List Bool) (parentHost first : Nat) :
+    (fuel : Nat) → (roIndex childHost : Nat) → (notSameHost : Bool) → Option Nat
+  | 0, _, _, _ => none
+  | fuel + 1, ro, ch, ns =>
+    if (ns && ch == parentHost && decide (c.ilLen > 1)) || (c.useAll && used.getD ro false) then
+      let ro' := (ro + 1) % c.ilLen
+      if c.useAll && used.getD ro' false then
+        pickLoop c used parentHost first fuel ro' ch (if ro' == first then false else ns)   -- `continue`
+      else if ro' == first then some ro'                                                      -- `break`
+      else pickLoop c used parentHost first fuel ro' (c.hosts.getD ro' 0) ns
+    else some ro
+
+/-- the server of the next child of a parent on host `parentHost` -/
+def pick (c : BigCfg) (st : BigSt) (parentHost : Nat) : Option Nat :=
+  pickLoop c st.used parentHost st.roIndex (2 * c.ilLen + 3) st.roIndex (c.hosts.getD st.roIndex 0) true
+
+/-- a level: nodes `(roster index, index of the parent in the previous level)` -/
+abbrev Level := List (Nat × Nat)
+
+/-- `for n := 0; n < children; n++ { … }` for the parent with index `pIdx`, hosted by `pMember` -/
+def addChildren (c : BigCfg) (pIdx pMember : Nat) : (k : Nat) → BigSt → Level → Option (BigSt × Level)
+  | 0, st, acc => some (st, acc)
+  | k + 1, st, acc =>
+    match pick c st (c.hosts.getD pMember 0) with
+    | none => none
+    | some r =>
+      addChildren c pIdx pMember k
+        { used := st.used.set r true, roIndex := (r + 1) % c.ilLen, total := st.total + 1 } (acc ++ [(r, pIdx)])
+
+/-- `children := (nodes - totalNodes) * (i + 1) / len(levelNodes); if children > N { children = N }` -/
+def childCount (c : BigCfg) (L i total : Nat) : Nat := min c.N ((c.nodes - total) * (i + 1) / L)
+
+/-- `for i, parent := range levelNodes { … }` -/
+def addLevel (c : BigCfg) (L : Nat) : (parents : Level) → (i : Nat) → BigSt → Level → Option (BigSt × Level)
+  | [], _, st, acc => some (st, acc)
+  | (m, _) :: rest, i, st, acc =>
+    match addChildren c i m (childCount c L i st.total) st acc with
+    | none => none
+    | some (st', acc') => addLevel c L rest (i + 1) st' acc'
+
+/-- `for totalNodes < nodes { … }`; `levels` are the finished levels, `cur` the last of them -/
+def bigLoop (c : BigCfg) : (fuel : Nat) → (levels : List Level) → (cur : Level) → BigSt → Outcome (List Level)
+  | 0, levels, _, st => if st.total < c.nodes then .hang else .tree levels
+  | fuel + 1, levels, cur, st =>
+    if st.total < c.nodes then
+      match addLevel c cur.length cur 0 st [] with
+      | none => .hang
+      | some (st', nl) => bigLoop c fuel (levels ++ [nl]) nl st'
+    else .tree levels
+
+/-- `GenerateBigNaryTree(N, nodes)` on a roster with these hosts -/
+def genBig (c : BigCfg) : Outcome (List Level) :=
+  if c.ilLen = 0 then .panic else
+  bigLoop c c.nodes [[(0, 0)]] [(0, 0)]
+    { used := (List.replicate c.ilLen false).set 0 true, roIndex := 1 % c.ilLen, total := 1 }
+
+/-! ### line-protocol driver -/
 namespace Drv
-/-- line-protocol driver state for C12 -/
+
 abbrev State := Unit
 def init : State := ()
-/-- one line in (tokens after the property prefix), new state and one line out -/
-def step (s : State) (_toks : List String) : State × String := (s, "bad-op")
+
+/-- levels → nodes in creation order with absolute parent positions -/
+def flatten (levels : List Level) : Nodes :=
+  let rec go : List Level → (prevOff off : Nat) → Nodes
+    | [], _, _ => []
+    | l :: ls, prevOff, off => l.map (fun (m, p) => (m, prevOff + p)) ++ go ls off (off + l.length)
+  go levels 0 0
+
+/-- pre-order `(roster index, arity)` list of a tree given in creation order -/
+def preorder (nodes : Nodes) : List (Nat × Nat) :=
+  let arr := nodes.toArray
+  let kids : Array (List Nat) := Id.run do
+    let mut k : Array (List Nat) := Array.replicate arr.size []
+    for j in [1:arr.size] do
+      let p := arr[j]!.2
+      k := k.modify p (· ++ [j])
+    return k
+  let rec go : Nat → Nat → List (Nat × Nat)
+    | 0, _ => []
+    | f + 1, p => (arr[p]!.1, kids[p]!.length) :: (kids[p]!).flatMap (go f)
+  go arr.size 0
+
+def showTree (nodes : Nodes) : String :=
+  ",".intercalate ((preorder nodes).map fun (m, a) => s!"{m}:{a}")
+
+def showOutcome : Outcome Nodes → String
+  | .tree t => showTree t
+  | .noTree => "none"
+  | .panic => "panic"
+  | .hang => "hang"
+
+/-- `nary <n> <N> <root index | x>` (`x`: a root that is not in the roster), `binary <n>`,
+`star <n>`, `big <N> <nodes> <host of every member>` -/
+def step (s : State) (toks : List String) : State × String :=
+  match toks with
+  | ["nary", n, bn, r] =>
+    match n.toNat?, bn.toNat? with
+    | some n, some bn =>
+      if n = 0 then (s, "bad-op") else
+      if r = "x" then (s, showOutcome (genNary bn none n)) else
+      match r.toNat? with
+      | some r => if r < n then (s, showOutcome (genNary bn (some r) n)) else (s, "bad-op")
+      | none => (s, "bad-op")
+    | _, _ => (s, "bad-op")
+  | ["binary", n] =>
+    match n.toNat? with
+    | some n => if n = 0 then (s, "bad-op") else (s, showOutcome (genBinary n))
+    | none => (s, "bad-op")
+  | ["star", n] =>
+    match n.toNat? with
+    | some n => if n = 0 then (s, "bad-op") else (s, showOutcome (genStar n))
+    | none => (s, "bad-op")
+  | ["big", bn, nodes, hosts] =>
+    match bn.toNat?, nodes.toNat?, Util.natList hosts with
+    | some bn, some nodes, some hosts =>
+      if hosts.isEmpty then (s, "bad-op") else
+      (s, match genBig { N := bn, nodes := nodes, hosts := hosts } with
+          | .tree lv => showTree (flatten lv)
+          | .noTree => "none"
+          | .panic => "panic"
+          | .hang => "hang")
+    | _, _, _ => (s, "bad-op")
+  | _ => (s, "bad-op")
+
 end Drv
 
 end C12
